@@ -62,9 +62,15 @@ func (v *VwmaStrategy) Compute(c <-chan *asset.Snapshot) <-chan strategy.Action 
 	})
 
 	// VWMA starts only after a full period.
-	actions = helper.Shift(actions, v.Vwma.Period-1, strategy.Hold)
+	actions = helper.Shift(actions, v.IdlePeriod(), strategy.Hold)
 
 	return actions
+}
+
+// IdlePeriod is the initial period during which the strategy yields no recommendations: both moving
+// averages must be available, so it is the longer of their idle periods.
+func (v *VwmaStrategy) IdlePeriod() int {
+	return helper.CommonPeriod(v.Sma.IdlePeriod(), v.Vwma.IdlePeriod())
 }
 
 // Report processes the provided asset snapshots and generates a
@@ -84,8 +90,8 @@ func (v *VwmaStrategy) Report(c <-chan *asset.Snapshot) *helper.Report {
 	closings := asset.SnapshotsAsClosings(snapshots[1])
 
 	smas, vwmas := v.calculateSmaAndVwma(snapshots[2])
-	smas = helper.Shift(smas, v.Vwma.Period-1, 0)
-	vwmas = helper.Shift(vwmas, v.Vwma.Period-1, 0)
+	smas = helper.Shift(smas, v.IdlePeriod(), 0)
+	vwmas = helper.Shift(vwmas, v.IdlePeriod(), 0)
 
 	actions, outcomes := strategy.ComputeWithOutcome(v, snapshots[3])
 	annotations := strategy.ActionsToAnnotations(actions)
@@ -112,8 +118,10 @@ func (v *VwmaStrategy) calculateSmaAndVwma(c <-chan *asset.Snapshot) (<-chan flo
 	closings := helper.Duplicate(asset.SnapshotsAsClosings(snapshots[0]), 2)
 	volume := asset.SnapshotsAsVolumes(snapshots[1])
 
-	smas := v.Sma.Compute(closings[0])
-	vwmas := v.Vwma.Compute(closings[1], volume)
+	// The two averages may have different periods: forward the earlier one so that both refer to the same snapshot.
+	idle := v.IdlePeriod()
+	smas := helper.SyncPeriod(idle, v.Sma.IdlePeriod(), v.Sma.Compute(closings[0]))
+	vwmas := helper.SyncPeriod(idle, v.Vwma.IdlePeriod(), v.Vwma.Compute(closings[1], volume))
 
 	return smas, vwmas
 }
